@@ -3,11 +3,13 @@ determinism (ordered value containers; no clock / RNG / hash-order dependence in
 import re
 from collections import defaultdict
 from lib.facts import CallGraph, find, is_node, path_of, render
+from lib import absint as A
 from lib import fxn as X
 from lib.kernel import Kernel, Unrecognised, show, roots_in, root_of
 
-TECHNIQUE = ("effect classification of every solve body through the kernel normal form (accumulating / appending updates of the output cell), structural "
-             "shape of Interpreter::step (counted forward passes over the whole plan), who-may-mutate the plan (append only), field-type rule for the "
+TECHNIQUE = ("effect classification of every solve body through the kernel normal form (accumulating / appending updates of the output cell), loop nest of every solve() in "
+             "Interpreter::step by symbolic evaluation through helpers, iterator adaptors and counted while loops (counted forward passes over the whole plan), who-may-mutate the plan "
+             "(append only; the plan is a role: field, accessor, typed parameter or a local initialised from one), field-type rule for the "
              "language's value containers and call-graph purity (clock, RNG, hash-ordered iteration) from the evaluators and kernels")
 EXPLANATION = (
     "Decides structural clauses of C19: (R1) step(0,n) is n forward passes over the whole plan and step(i,n) solves only step i, n times; (R2) every function "
@@ -25,35 +27,144 @@ NONDET = re.compile(r"^std::time::|^rand::|^rand_core::|^getrandom::|^std::env::
 RANDOM_BY_NAME = re.compile(r"[Rr]and|[Uu]uid|[Tt]ime|[Cc]lock|[Nn]ow")
 
 
+PLAN_APPEND = ("push", "append", "extend")
+PLAN_EDIT = ("insert", "sort", "sort_by", "reverse", "swap", "rotate_left", "rotate_right", "remove", "retain", "truncate", "drain", "pop", "dedup", "swap_remove")
+BORROWS = ("borrow_mut", "borrow", "as_mut", "as_ref", "clone", "deref", "deref_mut", "unwrap", "expect", "lock", "write", "read", "try_borrow_mut", "get_mut")
+
+
+def plan_role(it):
+    """-> predicate on expressions of the body of `it`: does this expression denote the evaluation plan (or a borrow of it)?"""
+    lets = defaultdict(list)
+    for st in find(it["body"], "let"):
+        if st[2] is None:
+            continue
+        pat = st[1]
+        while is_node(pat) and pat[0] in ("ptype", "pref"):
+            pat = pat[1] if pat[0] == "ptype" else pat[2]
+        if is_node(pat) and pat[0] == "pident":
+            lets[pat[1]].append(st[2])
+    params = set()
+    for inp in (it.get("sig") or {}).get("inputs", []):
+        if inp and inp[0] != "self" and is_node(inp[0]) and re.search(r"(^|[^\w])Plan([^\w]|$)|(Vec<|\[)Box<dynMechFunction>", (inp[1] or "").replace(" ", "")):
+            params |= {b[1] for b in find(inp[0], "pident")}
+    memo = {}
+
+    def is_plan(e, depth=0):
+        while is_node(e):
+            if e[0] == "ref":
+                e = e[2]
+            elif e[0] == "un" and e[1] == "*":
+                e = e[2]
+            elif e[0] == "paren":
+                e = e[1]
+            elif e[0] == "mcall" and e[2] in BORROWS:
+                e = e[1]
+            elif e[0] == "try":
+                e = e[1]
+            else:
+                break
+        if not is_node(e):
+            return False
+        if e[0] == "field":
+            return e[2] == "plan"
+        if e[0] == "mcall":
+            return e[2] == "plan" and not e[4]
+        if e[0] == "path" and "::" not in e[1]:
+            name = e[1]
+            if name in params:
+                return True
+            if name in memo:
+                return memo[name]
+            memo[name] = False
+            if depth < 6:
+                memo[name] = any(is_plan(x, depth + 1) for x in lets.get(name, ()))
+            return memo[name]
+        return False
+    return is_plan
+
+
+class StepRun:
+    """Interpreter::step evaluated with the role interpreter: which loops enclose every `solve()` (through helpers, iterator adaptors and named locals)"""
+
+    def __init__(self, items, step):
+        self.I = I = A.Interp(items)
+        args = []
+        nonself = [i for i in step["sig"]["inputs"] if not A.is_receiver(i)]
+        for k, inp in enumerate(nonself):
+            args.append(("atom", "arg%d" % k))
+        # the count is the LAST integer parameter (step(step_id, step_count)); by position and type, not by name
+        self.count = args[-1] if args else None
+        self.step_id = args[0] if args else None
+        self.result = I.run_item(step, args, self_val=("atom", "self"))
+        self.solves = [e for e in I.events if e["k"] == "call" and e["name"] == "solve" and e["recv"] is not None]
+        self.counters = [l for l, lp in I.loops.items() if lp["outer"] is not None and lp["src"][0] == "range" and self.count in set(A.subvalues(lp["src"]))]
+
+    def is_plan_loop(self, lid):
+        return any(x[0] == "field" and x[2] == "plan" for x in A.subvalues(self.I.loops[lid]["src"]))
+
+    def by_position(self, lid):
+        """the plan P when the loop walks it by position (`for i in 0..P.len()`), else None"""
+        src = self.I.loops[lid]["src"]
+        if src[0] == "range" and src[2][0] == "m" and src[2][2] == "len" and not src[2][3]:
+            return src[2][1]
+        return None
+
+    def whole_traversal(self, lid):
+        src = self.I.loops[lid]["src"]
+        if src[0] != "range":
+            return True
+        return self.by_position(lid) is not None and src[1] == ("int", 0) and src[3] is False
+
+    def plan_element(self, lid):
+        """the value that denotes `the current plan step` inside the traversal"""
+        src = self.I.loops[lid]["src"]
+        p = self.by_position(lid)
+        if p is not None:
+            return ("index", p, ("elem", src, lid))
+        return ("elem", src, lid)
+
+
 def run(F, rep, tier):
     rep.rule("C19-R1", "Interpreter::step: counted forward passes over the whole plan / a single step")
     rep.rule("C19-R2", "non-assignment solve bodies are idempotent: write only their output, never accumulate into it or append without clearing")
     rep.rule("C19-R3", "the plan is append-only")
     rep.rule("C19-R4", "ordered value containers; no clock/RNG reachable from kernels")
-    items = F.syn("mech_interpreter.lib")
+    check_step(F.syn("mech_interpreter.lib"), rep)
+    run_rest(F, rep, tier)
+
+
+def check_step(items, rep):
+    """C19-R1 on Interpreter::step found among `items`"""
     step = [it for it in items if it["k"] == "method" and it["name"] == "step" and it["self"] == "Interpreter"]
     if rep.check(len(step) == 1, "C19-R1", "anchor:step", "Interpreter::step not found"):
-        body = step[0]["body"]
-        outer = [f for f in find(body, "for") if re.search(r"step_count", render(f[2]))]
-        rep.floor("C19-R1", "counted loops over step_count", len(outer), 2)
+        sr = StepRun(items, step[0])
+        I = sr.I
+        rep.floor("C19-R1", "counted loops over step_count", len(sr.counters), 2)
         n_whole = 0
-        for f in outer:
-            rng = render(f[2])
-            rep.check(re.match(r"^0\.\.step_count$", rng) is not None, "C19-R1", "step:count-range", "step() repeats `%s` instead of 0..step_count" % rng)
-            inner = [g for g in find(f[3], "for")]
+        for c in sr.counters:
+            rng = A.show(I.loops[c]["src"])
+            rep.check(I.loops[c]["src"] == ("range", ("int", 0), sr.count, False) and not I.loops[c]["adapt"], "C19-R1", "step:count-range", "step() repeats `%s` instead of 0..step_count" % rng)
+            S = [e for e in sr.solves if c in e["loops"]]
+            inner = []
+            for e in S:
+                for l in e["loops"][e["loops"].index(c) + 1:]:
+                    if l not in inner:
+                        inner.append(l)
             if inner:
                 n_whole += 1
                 for g in inner:
-                    it_ = render(g[2])
-                    rep.check(re.search(r"plan\w*\.iter(_mut)?\(\)", it_) is not None and not re.search(r"rev\(\)|skip\(|take\(|step_by|filter", it_), "C19-R1", "step:forward-whole-plan",
+                    it_ = A.show(I.loops[g]["src"]) + "".join(".%s()" % a for a in I.loops[g]["adapt"]) + (".filter(..)" if I.loops[g].get("conds") else "")
+                    adapt = [a for a in I.loops[g]["adapt"] if not (a == "zip" and A.zip_same_length(I, g))]
+                    rep.check(sr.is_plan_loop(g) and sr.whole_traversal(g) and not adapt and not I.loops[g].get("conds"), "C19-R1", "step:forward-whole-plan",
                               "step(0, n) iterates the plan as `%s` (not a forward pass over the whole plan)" % it_, sample={"iterator": it_})
-                    solves = [m for m in find(g[3], "mcall") if m[2] == "solve"]
-                    rep.check(len(solves) == 1, "C19-R1", "step:solves-each-step-once", "each plan step is solved %d times per pass" % len(solves))
+                    solves = [e for e in S if e["loops"] and e["loops"][-1] == g]
+                    rep.check(len(solves) == 1 and solves[0]["recv"] == sr.plan_element(g), "C19-R1", "step:solves-each-step-once", "each plan step is solved %d times per pass" % len(solves))
             else:
-                solves = [m for m in find(f[3], "mcall") if m[2] == "solve"]
-                rep.check(len(solves) == 1, "C19-R1", "step:single-step-solved-once-per-count", "step(i, n) solves the selected step %d times per count" % len(solves))
+                rep.check(len(S) == 1, "C19-R1", "step:single-step-solved-once-per-count", "step(i, n) solves the selected step %d times per count" % len(S))
         rep.check(n_whole >= 1, "C19-R1", "step:whole-plan-branch", "step(0, n) no longer runs the whole plan")
 
+
+def run_rest(F, rep, tier):
     # ---- R2
     S = X.load_fxn_structs(F, CRATES)
     n = 0
@@ -113,20 +224,22 @@ def run(F, rep, tier):
     rep.floor("C19-R2", "non-assignment solve bodies classified", n, 700)
     rep.analysed = {"solve_bodies_classified": n, "unrecognised": unrec}
 
-    # ---- R3 plan append-only: methods called on a plan borrow anywhere in interpreter/core
+    # ---- R3 plan append-only: methods called on a plan borrow anywhere in interpreter/core.  "The plan" is a role: the field `plan`, the result of the
+    # accessor `plan()`, a parameter of type Plan, or a local initialised from one of these (`let b = p.plan(); let mut w = b.borrow_mut(); w.push(..)`)
     bad = []
     n_push = 0
     for crate in ("mech_interpreter.lib", "mech_core.lib"):
         for it in F.syn(crate):
-            if it["k"] not in ("fn", "method"):
+            if it["k"] not in ("fn", "method") or not it.get("body"):
                 continue
+            is_plan = plan_role(it)
             for m in find(it["body"], "mcall"):
-                recv = render(m[1])
-                if re.search(r"\bplan(_brrw|_ref)?\b|plan\.borrow_mut\(\)|\.plan\b", recv) and not re.search(r"term_plan|new_plan|sub_plan", recv):
-                    if m[2] in ("push", "append", "extend"):
-                        n_push += 1
-                    elif m[2] in ("insert", "sort", "sort_by", "reverse", "swap", "rotate_left", "rotate_right", "remove", "retain", "truncate", "drain", "pop", "dedup", "swap_remove"):
-                        bad.append((it["name"], m[2], recv))
+                if m[2] in PLAN_APPEND or m[2] in PLAN_EDIT:
+                    if is_plan(m[1]):
+                        if m[2] in PLAN_APPEND:
+                            n_push += 1
+                        else:
+                            bad.append((it["name"], m[2], "plan"))
     rep.floor("C19-R3", "plan append sites", n_push, 20)
     rep.check(not bad, "C19-R3", "plan-append-only" if not bad else "plan-mutated:%s" % ",".join(sorted({"%s.%s" % (b[0], b[1]) for b in bad})),
               "the evaluation plan is reordered or edited other than by appending: %s" % bad[:5])
